@@ -191,7 +191,14 @@ class Sequences(Stage):
         ok_cmds = 0
         excl_step = alt_step = None
         mixed = False
+        import time as _time
+        t_start = _time.monotonic()
         for step, c in enumerate(case['cmds']):
+            if _time.monotonic() - t_start > 15:
+                # a case that takes this long says nothing about the property (never a violation); the other cases go on
+                res.label('slow-case(inconclusive)')
+                state['models'] = None
+                return
             which = c.get('which', first)
             other = 'breakpoint' if which == 'filter' else 'filter'
             model = models[which]
